@@ -722,14 +722,19 @@ def job_action(prog, job):
             frame_key = frame_addr_value(A, df)
 
             def stamp_for(i, post=post):
-                # the time stamp the code itself stored (timestamps are outside the tracker semantics, C20)
+                # the time stamp the code itself stored (timestamps are outside the tracker semantics, C20): the stamp
+                # of the post-state record filed under the same address, selected by address equality (the position of
+                # a record in the model's map is not meaningful)
                 k_ = keys[i] if i < len(keys) else frame_key
-                e = post_by_key.get(key_repr(k_)) if k_ is not None else None
-                if e is None and i < len(post.ents):
-                    e = post.ents[i]
+                if k_ is None:
+                    return _b.NONE
+                e = post_by_key.get(key_repr(k_))
                 if e is not None:
                     return fget(S, fget(S, e[1], 'coords'), 'last_time')
-                return _b.NONE
+                out = _b.NONE
+                for e in reversed(post.ents):
+                    out = ite_value(value_eq(e[0], k_), fget(S, fget(S, e[1], 'coords'), 'last_time'), out)
+                return out
             spec_action.stamp_for = stamp_for
             cases = enumerate_cases(P, spec)
             if not cases:
@@ -739,7 +744,21 @@ def job_action(prog, job):
                 ents = want['entries']
                 role_base = sig
                 aligned = [post_by_key.get(key_repr(wk)) for wk, _ in ents]
-                if len(post_orig.ents) == len(ents) and all(a is not None for a in aligned) and len({id(a) for a in aligned}) == len(aligned):
+                if len(post_orig.ents) == len(ents) and not (all(a is not None for a in aligned) and len({id(a) for a in aligned}) == len(aligned)):
+                    # addresses that are equal only under the case condition (the frame's address vs the stored key)
+                    aligned, used = [], set()
+                    for wk, _ in ents:
+                        hit = None
+                        for j, e in enumerate(post_orig.ents):
+                            if j not in used and (key_repr(e[0]) == key_repr(wk) or P.implied(z3.Implies(g, value_eq(e[0], wk)))):
+                                hit = j
+                                break
+                        if hit is None:
+                            break
+                        used.add(hit)
+                        aligned.append(post_orig.ents[hit])
+                if len(post_orig.ents) == len(ents) and len(aligned) == len(ents) and all(a is not None for a in aligned) \
+                        and len({id(a) for a in aligned}) == len(aligned):
                     post = BMap(tuple(aligned))
                 else:
                     post = post_orig
@@ -885,24 +904,22 @@ def job_views(prog, job):
             viol(res, 'C14', 'all_position-panics', 'all_position panics: %s' % c.msg, P.feasible(), {}, job)
             continue
         got = c.value.e
-        # on this path the set of positioned aircraft is decided: compare element-wise in key order
-        idxs = [i for i in range(k) if P.implied(opt_discr(fget(S, fget(S, states[i], 'coords'), 'position')) == 1)]
-        undec = [i for i in range(k) if i not in idxs and not P.implied(opt_discr(fget(S, fget(S, states[i], 'coords'), 'position')) == 0)]
-        P.obligations += 1
-        if undec or len(got) != len(idxs):
-            viol(res, 'C14', 'all_position-set', 'position list has %d entries, %d aircraft have a position' % (len(got), len(idxs)), P.feasible(), {}, job)
-            continue
-        P.discharged += 1
-        # set semantics (the property does not fix an order; the addresses are pairwise distinct): every entry is the
-        # (address, position) of one positioned record and every positioned record occurs
+        # set semantics (the property fixes no order; addresses are pairwise distinct).  A leaf may stand for several
+        # merged cases, so which aircraft are positioned need not be decided by the path: the claim is stated with
+        # the position flags as terms.
+        pos = [opt_discr(fget(S, fget(S, states[i], 'coords'), 'position')) == 1 for i in range(k)]
+
         def match(e, i):
-            return z3.And(value_eq(e.f[0], keys[i]),
+            return z3.And(pos[i], value_eq(e.f[0], keys[i]),
                           value_eq_bits(e.f[1], fget(S, fget(S, states[i], 'coords'), 'position').f[0]))
+        n_pos = z3.Sum([z3.If(p_, 1, 0) for p_ in pos]) if pos else z3.IntVal(0)
+        ob(res, P, 'C14', 'all_position-set', n_pos == len(got),
+           'the position list has %d entries, a different number of aircraft have a position' % len(got), None, job)
         for e in got:
-            ob(res, P, 'C14', 'all_position-set', z3.Or(*[match(e, i) for i in idxs]) if idxs else z3.BoolVal(False),
+            ob(res, P, 'C14', 'all_position-set', z3.Or(*[match(e, i) for i in range(k)]) if k else z3.BoolVal(False),
                'a position list entry is not the (address, position) of a positioned record', None, job)
-        for i in idxs:
-            ob(res, P, 'C14', 'all_position-set', z3.Or(*[match(e, i) for e in got]) if got else z3.BoolVal(False),
+        for i in range(k):
+            ob(res, P, 'C14', 'all_position-set', z3.Implies(pos[i], z3.Or(*[match(e, i) for e in got]) if got else z3.BoolVal(False)),
                'a positioned aircraft is missing from the position list', None, job)
     # the text listing (Display for Airplanes): one line per aircraft with details, headed by its address
     STEP_CTX.clear()
